@@ -32,4 +32,5 @@ Emit == IF mode = "fold" THEN PrintT("F " \o ToJson([parts |-> parts]))
 Laws == ResolveLaws
 Sound == mode = "fold" \/ (AggSound(tree) /\ AggAgree(tree))
 Identity == mode # "fold" \/ LeftIdentityOnly(parts)
+Arity == \A d \in {"none", "0", "1", "2", "3"}, g \in {"0", "1", "2", "3", "4"} : ArityExact(d, g)
 =============================================================================
